@@ -2,7 +2,6 @@ CONSTANTS
   Mode = "pregel"
   N = 3
   MaxEdges = 9
-  MaxBr = 0
   FailKinds = {"err"}
   AllowDangling = FALSE
   Runs = 2
